@@ -299,6 +299,8 @@ where
             props: irs
                 .into_iter()
                 .map(|(prop_name, mut ir)| {
+                    let is_function_type =
+                        ir.types.len() == 1 && ir.types.contains(&Some(atom!("Function")));
                     let mut props = vec![
                         PropOrSpread::Prop(Box::new(Prop::KeyValue(KeyValueProp {
                             key: PropName::Ident(quote_ident!("type")),
@@ -355,9 +357,23 @@ where
                                 false
                             }
                     }) {
+                        let default = match default {
+                            // Vue never calls the default of a `Function` prop as a factory,
+                            // so such a prop gets the written function itself
+                            Expr::Arrow(ArrowExpr {
+                                span: DUMMY_SP,
+                                params,
+                                body,
+                                ..
+                            }) if is_function_type && params.is_empty() => match &**body {
+                                BlockStmtOrExpr::Expr(value) => (**value).clone(),
+                                BlockStmtOrExpr::BlockStmt(..) => default.clone(),
+                            },
+                            _ => default.clone(),
+                        };
                         props.push(PropOrSpread::Prop(Box::new(Prop::KeyValue(KeyValueProp {
                             key: PropName::Ident(quote_ident!("default")),
-                            value: Box::new(default.clone()),
+                            value: Box::new(default),
                         }))));
                     }
                     PropOrSpread::Prop(Box::new(Prop::KeyValue(KeyValueProp {
